@@ -40,7 +40,7 @@ class ClearMetadataAndDocStringPass(ir.passes.InPlacePass):
         modified = False
         # Clean up all of the nodes metadata properties
         for node in ir.traversal.RecursiveGraphIterator(graph_or_function):
-            if node.metadata_props:
+            if node.metadata_props or node.doc_string:
                 modified = True
                 logger.debug("Removed metadata from %s nodes", node.name)
             node.metadata_props.clear()
